@@ -332,6 +332,26 @@ pub fn build_dict(sys_csv: &str, user_csvs: &[String], cfg_json: &str) -> Result
     JapaneseDictionary::from_cfg_storage(&cfg, data).map_err(|e| format!("load: {}", e))
 }
 
+/// Other JapaneseDictionary instances over the same system dictionary: without user dictionaries, and -- when there are
+/// user dictionaries -- with user dictionaries that have other words (other key lengths, no units) at the same ids.
+/// Result lists built for them are targets of on-demand splits: the parts must not depend on the target's dictionary.
+pub fn other_dicts(sys_csv: &str, user_csvs: &[String], cfg_json: &str) -> Vec<Dict> {
+    let mut v = vec![];
+    if let Ok(d) = build_dict(sys_csv, &[], cfg_json) {
+        v.push(Rc::new(d));
+    }
+    if !user_csvs.is_empty() {
+        let fake: Vec<String> = user_csvs
+            .iter()
+            .map(|u| (0..u.lines().count()).map(|i| format!("ズ{k}ズ,0,0,9000,ズ{k}ズ,{p},ヨz{k},ズ{k}ズ,*,A,*,*,*,*\n", k = i, p = POS)).collect::<String>())
+            .collect();
+        if let Ok(d) = build_dict(sys_csv, &fake, cfg_json) {
+            v.push(Rc::new(d));
+        }
+    }
+    v
+}
+
 /// pre-normalisation spellings: (normalised, original)
 const VARIANTS: [(&str, &str); 10] = [("a", "A"), ("a", "Ａ"), ("a", "ぁ"), ("b", "B"), ("b", "Ｂ"), ("é", "É"), ("あい", "q"), ("京", "zz"), ("キロ", "㌔"), ("é", "é")];
 
@@ -687,6 +707,7 @@ pub struct CaseIn {
     pub user_csvs: Vec<String>,
     pub text: String,
     pub path_rewrite: String, // JSON of the configured path-rewrite plugins ("" = none)
+    pub others: Vec<Dict>,    // other dictionary instances over the same system dictionary (no / different user dictionaries)
 }
 
 fn run_case(sink: &mut Sink, lx: &Lexica, dict: &Dict, ci: &CaseIn, ill_formed: bool, verbose: bool) {
@@ -964,6 +985,24 @@ fn run_case(sink: &mut Sink, lx: &Lexica, dict: &Dict, ci: &CaseIn, ill_formed: 
                 }
                 seen
             });
+            // on-demand split into a result list that belongs to ANOTHER dictionary instance (same system dictionary, no or
+            // other user dictionaries): the parts come from the dictionary of the list that owns the morpheme
+            'others: for (k, od) in ci.others.iter().enumerate() {
+                for i in 0..c.ctoks.len() {
+                    for (m, exp) in [(Mode::A, &sa[i]), (Mode::B, &sb[i])] {
+                        let got = catch(|| {
+                            let mut out = MorphemeList::empty(od.clone());
+                            let flag = c.list.get(i).split_into(m, &mut out).expect("split_into error");
+                            (flag, observe(&out))
+                        })
+                        .ok();
+                        if &got != exp {
+                            sink.fail(id, &format!("split_into({:?}) of token {} into a result list of another dictionary instance ({}) gives {:?}, into a list of its own dictionary {:?}", m, i, if k == 0 { "same system dictionary, no user dictionary" } else { "same system dictionary, other user dictionaries" }, got, exp), "");
+                            break 'others;
+                        }
+                    }
+                }
+            }
             match shared {
                 Err(p) => sink.fail(id, &format!("tokenizers sharing one result list: panic: {}", p), ""),
                 Ok(seen) => {
@@ -1053,21 +1092,154 @@ fn key_length_boundary(sink: &mut Sink, cfg: &str) {
     }
 }
 
+// ---------------------------------------------------------------- the split API of the Python binding
+// `Dictionary.create(mode=C, fields=F)` + `Morpheme.split(X)` against `Dictionary.create(mode=X, fields=F)` on a
+// dictionary whose words declare A units only, B units only and both: whenever F asks for the split list of X (all fields,
+// or the documented name split_a / split_b) splitting every C-mode morpheme on demand must give the direct tokenisation.
+fn py_split_sessions() -> Vec<(Value, String, &'static str)> {
+    let field_sets: Vec<Value> = vec![
+        Value::Null,
+        json!([]),
+        json!(["split_a"]),
+        json!(["split_b"]),
+        json!(["split_a", "split_b"]),
+        json!(["pos", "split_b"]),
+        json!(["pos_id", "split_a"]),
+        json!(["surface", "normalized_form", "dictionary_form", "reading_form", "word_structure", "synonym_group_id", "split_b"]),
+        json!(["surface", "pos", "normalized_form", "dictionary_form", "reading_form", "word_structure", "synonym_group_id", "split_a"]),
+    ];
+    let mut v = vec![];
+    for f in field_sets {
+        for text in ["abbaaabb", "ba", "xbbab"] {
+            for x in ["A", "B"] {
+                v.push((f.clone(), text.to_string(), x));
+            }
+        }
+    }
+    v
+}
+
+fn python_split_stage(sink: &mut Sink, args: &Args, res: &std::path::Path, replay: Option<&Value>) {
+    let pypkg = std::env::var("VERIF_PYPKG").unwrap_or_default();
+    let root = std::env::var("VERIF_ROOT").unwrap_or_else(|_| ".".into());
+    if pypkg.is_empty() {
+        sink.tag("python_split_stage_skipped(module not staged)");
+        return;
+    }
+    // the dictionary: ab (A = B = a/b), ba (B = b/a only), bb (B = b/b only), aa (A = a/a only); a, b not indexed
+    let mut lx = Lexica::default();
+    lx.ndics = 1;
+    let mk = |idx: u32, key: &str, indexed: bool, a: Vec<(usize, u32, bool)>, b: Vec<(usize, u32, bool)>| Word { dic: 0, idx, key: key.into(), head: key.to_uppercase(), cost: if indexed { 900 } else { 1000 }, indexed, shadow_of: None, a, b };
+    lx.words.push(mk(0, "ab", true, vec![(0, 1, false), (0, 2, false)], vec![(0, 1, false), (0, 2, false)]));
+    lx.words.push(mk(1, "a", false, vec![], vec![]));
+    lx.words.push(mk(2, "b", false, vec![], vec![]));
+    lx.words.push(mk(3, "ba", true, vec![], vec![(0, 2, false), (0, 1, false)]));
+    lx.words.push(mk(4, "bb", true, vec![], vec![(0, 2, false), (0, 2, false)]));
+    lx.words.push(mk(5, "aa", true, vec![(0, 1, false), (0, 1, false)], vec![]));
+    let csv = lx.csv(0);
+    let bytes = (|| -> Result<Vec<u8>, String> {
+        let mut sys = DictBuilder::new_system();
+        sys.read_conn("1 1\n0 0 0\n".as_bytes()).map_err(|e| e.to_string())?;
+        sys.read_lexicon(csv.as_bytes()).map_err(|e| e.to_string())?;
+        sys.resolve().map_err(|e| e.to_string())?;
+        let mut out = vec![];
+        sys.compile(&mut out).map_err(|e| e.to_string())?;
+        Ok(out)
+    })();
+    let bytes = match bytes {
+        Ok(b) => b,
+        Err(e) => {
+            let id = sink.case_rust_only(json!({"kind": "py-split-build"}), false);
+            sink.fail(id, &format!("dictionary of the python split stage was not built: {}", e), "");
+            return;
+        }
+    };
+    std::fs::write(res.join("c09_system.dic"), bytes).unwrap();
+    let cfg_path = res.join("c09_sudachi.json");
+    let cfgj: Value = serde_json::from_str(&config_json(res, "")).unwrap();
+    let mut cfgj = cfgj;
+    cfgj["systemDict"] = json!("c09_system.dic");
+    std::fs::write(&cfg_path, cfgj.to_string()).unwrap();
+    let cases: Vec<(Value, String, String)> = match replay {
+        Some(c) => vec![(c["fields"].clone(), c["text"].as_str().unwrap().to_string(), c["split_mode"].as_str().unwrap().to_string())],
+        None => py_split_sessions().into_iter().map(|(f, t, x)| (f, t, x.to_string())).collect(),
+    };
+    let mut sessions = vec![];
+    for (f, text, x) in &cases {
+        let mut ops = vec![json!({"op": "tokenize", "text": text, "mode": null, "out": false})];
+        for i in 0..8 {
+            ops.push(json!({"op": "split", "index": i, "mode": x, "out": false, "add_single": true}));
+        }
+        sessions.push(json!({"mode": "C", "fields": f, "projection": null, "ops": ops}));
+        sessions.push(json!({"mode": x, "fields": f, "projection": null, "ops": [{"op": "tokenize", "text": text, "mode": null, "out": false}]}));
+    }
+    let sp = args.work.join("c09_sessions.json");
+    let op = args.work.join("c09_py_out.json");
+    std::fs::write(&sp, serde_json::to_vec(&sessions).unwrap()).unwrap();
+    let _ = std::fs::remove_file(&op);
+    let st = std::process::Command::new("python3").arg(format!("{}/pyharness/run_py.py", root)).arg(&cfg_path).arg(res).arg(&sp).arg(&op).env("PYTHONPATH", &pypkg).output();
+    let py: Option<Value> = std::fs::read_to_string(&op).ok().and_then(|s| serde_json::from_str(&s).ok());
+    let py = match (&st, py) {
+        (Ok(o), Some(py)) if o.status.success() => py,
+        (st, _) => {
+            let id = sink.case_rust_only(json!({"kind": "py-split-run"}), false);
+            let why = match st {
+                Ok(o) => String::from_utf8_lossy(&o.stderr).chars().rev().take(400).collect::<String>().chars().rev().collect::<String>(),
+                Err(e) => e.to_string(),
+            };
+            sink.fail(id, &format!("the python sessions did not complete: {}", why), "");
+            return;
+        }
+    };
+    let key = |m: &Value| json!([m["surface"], m["begin"], m["end"], m["word_id"]]);
+    for (k, (f, text, x)) in cases.iter().enumerate() {
+        let c = py["results"][2 * k].as_array().cloned().unwrap_or_default();
+        let d = py["results"][2 * k + 1].as_array().cloned().unwrap_or_default();
+        let covered = f.is_null() || f.as_array().map_or(false, |a| a.iter().any(|n| n == if x == "A" { "split_a" } else { "split_b" }));
+        sink.tag("py-split-session");
+        sink.tag(if covered { "py:split_list_requested" } else { "py:split_list_not_requested(not compared)" });
+        let id = sink.case_rust_only(json!({"kind": "py-split", "fields": f, "text": text, "split_mode": x, "lexicon": csv}), covered);
+        let ctoks = c.get(0).and_then(|o| o["morphemes"].as_array().cloned()).unwrap_or_default();
+        let direct: Vec<Value> = d.get(0).and_then(|o| o["morphemes"].as_array().cloned()).unwrap_or_default().iter().map(key).collect();
+        let mut on_demand: Vec<Value> = vec![];
+        for i in 0..ctoks.len().min(8) {
+            if let Some(ms) = c.get(1 + i).and_then(|o| o["morphemes"].as_array()) {
+                on_demand.extend(ms.iter().map(key));
+            }
+        }
+        if replay.is_some() {
+            println!("fields {} text {:?} mode {}:\n  C tokens        : {:?}\n  split on demand : {:?}\n  direct          : {:?}", f, text, x, ctoks.iter().map(key).collect::<Vec<_>>(), on_demand, direct);
+        }
+        if !c.iter().chain(d.iter()).all(|o| o["ok"] == true) {
+            sink.fail(id, &format!("sudachipy fields={} text {:?}: a call raised: {:?}", f, text, c.iter().chain(d.iter()).find(|o| o["ok"] != true)), "");
+        } else if covered && on_demand != direct {
+            sink.fail(id, &format!("sudachipy create(mode=C, fields={}) + Morpheme.split({}) on {:?} gives {} where create(mode={}) gives {}", f, x, text, Value::Array(on_demand), x, Value::Array(direct)), "");
+        }
+    }
+}
+
 pub fn run(args: &Args) {
     let mut sink = Sink::new("C09", &args.out, &["Model.Split", "Model.SplitSource"], args.seed, &args.tier);
     sink.shard_size = 100;
-    sink.rule("generated system + 0..2 user dictionaries (atoms of 1/2/3/4-byte code points, headwords (column 4) often of another byte length than the key, compounds declaring A and B units by id, U-id or inline reference: system->system, user->system, user->user; no-units columns written as `*` or as the empty column; homographs; user copies of system words (same key, headword, POS, reading) referenced inline, so that the own-rows-first look-up order matters; words with exactly one unit; unindexed unit targets) compiled by DictBuilder and loaded with DefaultInputTextPlugin + a rewrite.def whose rules change byte lengths, under path-rewrite stacks {none, JoinKatakanaOovPlugin minLength 1..4, JoinNumericPlugin, both} over dictionaries whose katakana / numeral words declare units (a token merged by a plugin declares none: unchanged in A/B, split_into false); texts = 1..4 dictionary words / stray characters, randomly re-spelt in pre-normalisation form (upper case, full width, ㌔, rewrite rules); per text: C, A, B tokenisation by tokenizers that are fresh or were switched between modes (set_mode history, with analyses in between) before, A and B again under restricted field requests (nothing, single fields, two drawn from the text; both orders of set_subset / set_mode; directly and through split_into on a mode-C result), and split_into(A/B) of every C token (sub-token ranges also checked against the unit key lengths); one result list shared by four tokenizers of different modes and field requests collecting in turn; non-trivial = some C token declares >= 2 units; a separate malformed stream uses ill-formed declarations (unit list too short / first unit longer than the text)");
+    sink.rule("generated system + 0..2 user dictionaries (atoms of 1/2/3/4-byte code points, headwords (column 4) often of another byte length than the key, compounds declaring A and B units by id, U-id or inline reference: system->system, user->system, user->user; no-units columns written as `*` or as the empty column; homographs; user copies of system words (same key, headword, POS, reading) referenced inline, so that the own-rows-first look-up order matters; words with exactly one unit; unindexed unit targets) compiled by DictBuilder and loaded with DefaultInputTextPlugin + a rewrite.def whose rules change byte lengths, under path-rewrite stacks {none, JoinKatakanaOovPlugin minLength 1..4, JoinNumericPlugin, both} over dictionaries whose katakana / numeral words declare units (a token merged by a plugin declares none: unchanged in A/B, split_into false); texts = 1..4 dictionary words / stray characters, randomly re-spelt in pre-normalisation form (upper case, full width, ㌔, rewrite rules); per text: C, A, B tokenisation by tokenizers that are fresh or were switched between modes (set_mode history, with analyses in between) before, A and B again under restricted field requests (nothing, single fields, two drawn from the text; both orders of set_subset / set_mode; directly and through split_into on a mode-C result), and split_into(A/B) of every C token (sub-token ranges also checked against the unit key lengths); one result list shared by four tokenizers of different modes and field requests collecting in turn; split_into into result lists of other dictionary instances (same system dictionary, no / other user dictionaries); plus sudachipy sessions: create(mode=C, fields=F) + Morpheme.split(A/B) of every morpheme against create(mode=A/B, fields=F) for field sets with and without split_a / split_b; non-trivial = some C token declares >= 2 units; a separate malformed stream uses ill-formed declarations (unit list too short / first unit longer than the text)");
     let res = prepare_resources(&args.work);
     let cfg = config_json(&res, "");
     if let Some(p) = &args.replay {
         let v: Value = serde_json::from_str(&std::fs::read_to_string(p).unwrap()).unwrap();
         let case = &v["case"];
+        if case["kind"] == "py-split" || case["kind"] == "py-split-run" {
+            python_split_stage(&mut sink, args, &res, if case["kind"] == "py-split" { Some(case) } else { None });
+            sink.finish();
+            return;
+        }
         let ci = CaseIn {
             sys_csv: case["system_csv"].as_str().unwrap().to_string(),
             user_csvs: case["user_csvs"].as_array().unwrap().iter().map(|x| x.as_str().unwrap().to_string()).collect(),
             text: case["text"].as_str().unwrap().to_string(),
             path_rewrite: case["path_rewrite"].as_str().unwrap_or("").to_string(),
+            others: vec![],
         };
+        let ci = CaseIn { others: other_dicts(&ci.sys_csv, &ci.user_csvs, &config_json(&res, &ci.path_rewrite)), ..ci };
         let lx = lexica_from_json(&case["lexica"]);
         println!("system lexicon:\n{}", ci.sys_csv);
         for (i, u) in ci.user_csvs.iter().enumerate() {
@@ -1093,10 +1265,28 @@ pub fn run(args: &Args) {
         lx.words.push(Word { dic: 0, idx: 5, key: "aa".into(), head: "AA".into(), cost: 900, indexed: true, shadow_of: None, a: vec![(0, 1, false), (0, 1, false)], b: vec![] });
         let sys_csv = lx.csv(0);
         let dict: Dict = Rc::new(build_dict(&sys_csv, &[], &cfg).expect("corpus dictionary"));
+        let corpus_others = other_dicts(&sys_csv, &[], &cfg);
         for text in ["ＡＢ", "ab", "AB", "abab", "xＡb。", "", "ba", "bbaa", "xbaab"] {
-            let ci = CaseIn { sys_csv: sys_csv.clone(), user_csvs: vec![], text: text.to_string(), path_rewrite: String::new() };
+            let ci = CaseIn { sys_csv: sys_csv.clone(), user_csvs: vec![], text: text.to_string(), path_rewrite: String::new(), others: corpus_others.clone() };
             run_case(&mut sink, &lx, &dict, &ci, false, false);
             sink.tag("corpus_split_alpha");
+        }
+    }
+    // ... and a fixed system + user dictionary pair: a user compound whose units are a system word and a user word
+    {
+        let mut lx = Lexica::default();
+        lx.ndics = 2;
+        lx.words.push(Word { dic: 0, idx: 0, key: "1".into(), head: "1".into(), cost: 3000, indexed: true, shadow_of: None, a: vec![], b: vec![] });
+        lx.words.push(Word { dic: 0, idx: 1, key: "a".into(), head: "A".into(), cost: 2000, indexed: true, shadow_of: None, a: vec![], b: vec![] });
+        lx.words.push(Word { dic: 1, idx: 0, key: "é".into(), head: "é".into(), cost: 2000, indexed: true, shadow_of: None, a: vec![], b: vec![] });
+        lx.words.push(Word { dic: 1, idx: 1, key: "aé".into(), head: "aé".into(), cost: 100, indexed: true, shadow_of: None, a: vec![(0, 1, false), (1, 0, false)], b: vec![(0, 1, false), (1, 0, true)] });
+        let (sys_csv, user_csvs) = (lx.csv(0), vec![lx.csv(1)]);
+        let dict: Dict = Rc::new(build_dict(&sys_csv, &user_csvs, &cfg).expect("corpus dictionary with a user dictionary"));
+        let others = other_dicts(&sys_csv, &user_csvs, &cfg);
+        for text in ["aé", "1aéa", "Ａé"] {
+            let ci = CaseIn { sys_csv: sys_csv.clone(), user_csvs: user_csvs.clone(), text: text.to_string(), path_rewrite: String::new(), others: others.clone() };
+            run_case(&mut sink, &lx, &dict, &ci, false, false);
+            sink.tag("corpus_user_dictionary");
         }
     }
     key_length_boundary(&mut sink, &cfg);
@@ -1142,6 +1332,7 @@ pub fn run(args: &Args) {
             }
         };
         built += 1;
+        let others = if ill { vec![] } else { other_dicts(&sys_csv, &user_csvs, &cfg) };
         for k in 0..per {
             let text = match lx.ill_formed {
                 // a first unit longer than the text: the word alone (anywhere else the sub-token ranges would be
@@ -1162,10 +1353,11 @@ pub fn run(args: &Args) {
                 // original-text offsets
                 _ => gen_text_opt(&mut rng, &lx, path_rewrite.is_empty()),
             };
-            let ci = CaseIn { sys_csv: sys_csv.clone(), user_csvs: user_csvs.clone(), text, path_rewrite: path_rewrite.clone() };
+            let ci = CaseIn { sys_csv: sys_csv.clone(), user_csvs: user_csvs.clone(), text, path_rewrite: path_rewrite.clone(), others: others.clone() };
             run_case(&mut sink, &lx, &dict, &ci, ill, false);
         }
     }
+    python_split_stage(&mut sink, args, &res, None);
     sink.tag_n("dictionaries_built", built);
     sink.tag_n("dictionaries_rejected", rejected);
     sink.finish();
